@@ -1002,6 +1002,11 @@ example : ¬ NeverSel Op.selL scn [.netRemoveLanelet 2, .cutOut [1, 3, 4] true] 
 example : (scn.selections [.scnRemoveLanelets [⟨2, [10, 11], [20]⟩] true, .cutOut [1, 4] true]) =
     [⟨[2], [11], [], [], []⟩, ⟨[3], [], [20], [], [(30, 32)]⟩] := by decide
 
+-- id 0 is an id like any other (the theorems are over `Nat`): removing lanelet 0 clears the adjacency that names it
+example : (({ lanelets := [la 0 [] [] none (some 1) [] [] none, la 1 [] [] (some 0) none [] [] none],
+              signs := [], lights := [], inters := [] } : Net).removeLanelet 0).lanelets.map
+    (fun l => (l.id, l.adjL, l.adjLSame)) = [(1, none, none)] := by decide
+
 end Ex
 
 end CR.Refs
